@@ -187,6 +187,8 @@ DIALECTS = {
     "kotlin": {"backend": "kotlin", "extra": ["--config", "kotlin.domain=dev.verif", "--config", "lib_name=bridge"], "front": "kotlinfront",
                "dialect": {"name": "kotlin", "mod": "mk", "flag": "isOk", "slice": ("data", "len"), "prefix": "c07k", "tags": ["C07"]},
                # Option<slice> parameters hit an unreachable!() in kotlin/mod.rs::gen_native_type_name (a C15 matter): kept out of the profile
+               # field-less structs: the Kotlin back end refers to a `<Name>Native` class it never emits (a C09/C15 matter): kept out of the profile
+               "drop_types": lambda mod: [s_.name for s_ in mod.structs.values() if not s_.fields],
                "pred": lambda m: not any(isinstance(t, (bridgegen.Callback, bridgegen.StrSlice)) or bridgegen.any_type(t, lambda x: isinstance(x, bridgegen.Opt) and isinstance(x.inner, (bridgegen.Slice, bridgegen.Str, bridgegen.StrSlice)))
                                          for _, t in m.params)},
 }
@@ -196,7 +198,7 @@ def prepare_dialect(mod, which):
     """Fit `mod` to the back end's feature profile, generate its bindings, parse the native
     declarations into a CModel and generate harnesses against it."""
     spec = DIALECTS[which]
-    cur = bridgegen.filtered(mod, method_pred=spec["pred"], suffix="_" + which)
+    cur = bridgegen.filtered(mod, method_pred=spec["pred"], drop_types=spec.get("drop_types", lambda m_: [])(mod), suffix="_" + which)
     d = os.path.join(GEN_ROOT, cur.name)
     fitted_out = []
     crashed_out = []
@@ -414,6 +416,7 @@ ADVERSARIAL_ENUMS = [
     [("A", 1), ("B", 0)],                                                  # two-variant swap
     [("A", 0), ("B", 1), ("C", 3), ("D", 2)],                              # contiguous prefix, then swapped tail
     [("A", -1), ("B", 0), ("C", 1)],                                       # contiguous run starting below zero
+    [("Off", 0), ("_Reserved", 5), ("On", 6), ("__Legacy", -2)],           # variant names some target languages treat as private/reserved
 ]
 ADVERSARIAL_ENUMS[5] = [("A", None), ("B", 2), ("C", 1)]                   # implicit 0, then descending explicit
 
